@@ -493,8 +493,8 @@ def rule_G(ctx):
     fk = ctx.prog.func(KER + '.toSlidingWindow')
     fs = ctx.prog.func(FIL + '.filter_seq')
     fn = absint.funcs(ctx, FIL, dict(npstub.stubs()))
-    NANV = float('nan')
-    fn['__globals__']['NAN'] = NANV
+    NANV = float('nan')                        # the NaN samples of the signals: NOT the module's NAN object
+    fn['__globals__']['NAN'] = float('nan')
     T = absint.classref(ctx, 'tracklib.core.track.Track', fn)
     absint.operator_table(ctx, fn)
     kmod = 'tracklib.core.kernel'
